@@ -2,6 +2,7 @@ package main
 
 import (
 	"fmt"
+	"math/big"
 	"reflect"
 	"strconv"
 	"strings"
@@ -13,23 +14,111 @@ import (
 
 var singlePool = []rune{'a', 'b', 'c', 'd', 'n', 'x', 'y', 'z', 'B', 'N', '1', '0', '_', '?', ':', '.', '+', 'é', '€', '😀', 'ß', 0xFF, 0x80}
 var weirdSingles = []rune{'=', '-', '@', 'h', 'v', 'V', 0xFFFD, 0xD800, 0x110000, -5, ' '}
-var namePool = []string{"name", "long-name", "n2", "ab", "flag", "verbose", "out", "level", "count", "x-y", "a.b", "two_words", "é", "日本", "--", "-x", "na"}
+var namePool = []string{"name", "long-name", "n2", "ab", "flag", "verbose", "out", "level", "count", "x-y", "a.b", "two_words", "é", "日本", "--", "-x", "na",
+	"nam", "name2", "long", "long-name-x", "lo", "ver", "verb", "verbose2", "co", "no-flag", "flags", "ou", "ßß", "nn", "xx", "ab-", "-ab", "a-", "ab.c", "AB", "Name"}
 var weirdNames = []string{"a=b", "=x", "help", "version", "Version", "a", "", "=", "x", "@f", "a b"}
 
-var strPool = []string{"", "-", "--", "@x", "=x", "a=b", "héllo", "\xff", "-n", "x y", "value", "@f0", "---", "-=", "true", "0",
+var strPool = []string{" ", " v", "v ", " v ", "\tv", "v\t", "\t", "  ", " -n", "- ", "\u00a0v\u00a0", "\u2003", "v\v", "\fv", "==", "=-", "-=x", "--x=y", "=", "=@f0", "-@", "@@", "= ", " =",
+	"a\rb", "\rv", "v\r", "\r", "\x00", "a\x00b", "", "-", "--", "@x", "=x", "a=b", "héllo", "\xff", "-n", "x y", "value", "@f0", "---", "-=", "true", "0",
 	"日本", "\xc3", "a,b", "--name=v", "reject", "=", "@", "-a", "--name", "\xe2\x82", "\xf0\x9f\x98\x80"}
-var boolPool = []string{"true", "false", "1", "0", "t", "F", "f", "T", "True", "TRUE", "False", "FALSE", "yes", "", "tRUE", "no", "01"}
-var intPool = []string{"0", "-1", "1", "127", "-128", "128", "-129", "255", "256", "0x7f", "0X7F", "0b101", "0B11", "0o17", "0O7", "017",
+var boolPool = []string{" true", "true ", "\ttrue", "1 ", " 0", "true", "false", "1", "0", "t", "F", "f", "T", "True", "TRUE", "False", "FALSE", "yes", "", "tRUE", "no", "01"}
+var intPool = []string{"1\t", "\t1", " 0x10", "7 ", "1\r", "0", "-1", "1", "127", "-128", "128", "-129", "255", "256", "0x7f", "0X7F", "0b101", "0B11", "0o17", "0O7", "017",
 	"1_000", "-0x80", "+5", "08", "0x", "_1", "1__0", "1_", "0_7", "0x_1f", "0_x1", "9223372036854775807", "9223372036854775808",
 	"-9223372036854775808", "-9223372036854775809", "18446744073709551615", "18446744073709551616", "32767", "-32768", "32768",
 	"65535", "65536", "2147483647", "-2147483648", "2147483648", "4294967295", "4294967296", "0xffffffffffffffff",
 	"0x10000000000000000", "-0", "+0", "00", "0b", "0b2", "0o8", "0xg", "1e3", "1.0", " 1", "1 ", "", "-", "+", "--1", "+-1", "-+1",
 	"0x1_F", "0b_1", "0_", "1_2_3", "_", "0__1", "0x1__2", "٣", "１", "0b1_", "0o_7", "-_1", "-1_0", "99999999999999999999999999999x"}
-var floatPool = []string{"0", "1.5", "-2e3", "inf", "-Inf", "+infinity", "nan", "NaN", "0x1p-2", "1e400", "1e39", "-1e39", "3.4028235e38",
+var floatPool = []string{
+	// float32 rounding midpoints and their neighbours (1+2^-24, 2^24+1, between the two largest finite values and beyond)
+	"1.000000059604644775390625", "1.00000005960464477539062", "1.0000000596046448", "1.0000000596046447", "1.00000005960464477539063",
+	"1.00000005960464477539062500000000000000001", "1.00000017881393432617187500000000000000001", "1.000000178813934326171875",
+	"16777216", "16777217", "16777218", "16777219", "16777217.0000000000000001", "33554434", "33554435",
+	"3.4028234663852886e38", "3.4028235677973366e38", "3.4028235677973365e38", "3.40282356779733661637539395458142568448e38",
+	"3.4028235e38", "3.4028236e38", "3.4028237e38", "-3.4028235677973366e38", "3.5e38", "1e38", "0x1.fffffep127", "0x1.ffffffp127", "0x1p128",
+	// float32 subnormals and underflow
+	"1e-45", "1.4e-45", "1.401298464324817e-45", "7.006492321624085e-46", "7.006492321624086e-46", "7e-46", "1e-46", "1.1754944e-38", "1.1754942e-38", "0x1p-149", "0x1p-150", "0x1.000002p-150",
+	// float64 limits
+	"1.7976931348623157e308", "1.7976931348623158e308", "1.797693134862315807e308", "1.7976931348623159e308", "1e309", "-1e309", "4.9e-324", "5e-324", "2.4703282292062327e-324", "2.4703282292062328e-324", "2e-324", "3e-324",
+	"2.2250738585072014e-308", "2.2250738585072011e-308", "9007199254740992", "9007199254740993", "9007199254740995", "0.1", "0.30000000000000004", "1e23", "8.41e21", "5e-324 ", " 1.5", "1.5 ", "\t1e3",
+	"-0", "-0.0", "+0", "0e999", "-0e-999", "1e+2", "1E-2", ".5e1", "5.e1", "0x.8p1", "0X1P+3", "0x1p", "0x", "1p3", "1_000.5", "1_0e1_0", "infinity", "+inf", "-infinity", "iNf", "nan", "+nan", "0", "1.5", "-2e3", "inf", "-Inf", "+infinity", "nan", "NaN", "0x1p-2", "1e400", "1e39", "-1e39", "3.4028235e38",
 	"3.4028236e38", "1e-50", "1_0.5", "1__0", ".5", "5.", ".", "", "1e", "0x1.8p1", "0x1", "1,5", "infinit", "-nan", "4.9e-324",
 	"1e-400", "0.1", "16777217", "-0", "0e0", "1E5", "+1.25", "1.5f", "abc"}
-var durPool = []string{"0", "1s", "1h2m3s", "-1.5s", "1", "1µs", "1us", "1μs", "100ms", "2h45m", "+3m", "1d", "", "s", ".5s", "1.s", "-0",
+var durPool = []string{"1ns", "1us", "1µs", "1μs", "1ms", "1s", "1m", "1h", "1.5ns", "0.5ns", "0.4ns", "1.9999999999ns", "1.5us", "1.5ms", "1.5m", "1.5h", ".5h", "0.000000001h", "1h1m1s1ms1us1ns",
+	"-1h1m", "+1h", "1H", "1 s", " 1s", "1s ", "1s\t", "1sec", "1min", "1w", "1y", "1µ", "1 µs", "9223372036854775807ns", "9223372036854775808ns", "-9223372036854775808ns", "-9223372036854775809ns",
+	"9223372036854775.807us", "9223372036854775.808us", "9223372036854.775807ms", "9223372036.854775807s", "9223372036.854775808s", "153722867.28091293m", "153722867.28091294m", "2562047.788015215h", "2562047.79h",
+	"2562047h47m16.854775807s", "2562047h47m16.854775808s", "106751d", "0h", "0ns", "-0s", "00s", "1e3s", "1_0s", "0x10s", "1..5s", "1.5.s", "0", "1s", "1h2m3s", "-1.5s", "1", "1µs", "1us", "1μs", "100ms", "2h45m", "+3m", "1d", "", "s", ".5s", "1.s", "-0",
 	"9223372036854775807ns", "9223372036854775808ns", "2562047h", "2562048h", "1h-1m", "1ns1ns", "0.000000001s", "1e3s", " 1s"}
+
+// limitVals: the limits of an integer kind, one beyond, and neighbours, in several bases.
+func limitVals(bits int, signed bool) []string {
+	var out []string
+	add := func(b *big.Int) {
+		out = append(out, b.String())
+		if b.Sign() >= 0 {
+			out = append(out, "0x"+b.Text(16), "0o"+b.Text(8), "0b"+b.Text(2), "0"+b.Text(8), "+"+b.String(), "0X"+strings.ToUpper(b.Text(16)))
+		} else {
+			abs := new(big.Int).Neg(b)
+			out = append(out, "-0x"+abs.Text(16), "-0b"+abs.Text(2), "-0"+abs.Text(8))
+		}
+	}
+	one := big.NewInt(1)
+	var lims []*big.Int
+	if signed {
+		mx := new(big.Int).Sub(new(big.Int).Lsh(one, uint(bits-1)), one)
+		mn := new(big.Int).Neg(new(big.Int).Lsh(one, uint(bits-1)))
+		lims = []*big.Int{mx, mn, new(big.Int).Rsh(mx, 1), new(big.Int).Add(new(big.Int).Rsh(mx, 1), one)}
+	} else {
+		mx := new(big.Int).Sub(new(big.Int).Lsh(one, uint(bits)), one)
+		lims = []*big.Int{mx, big.NewInt(0), new(big.Int).Lsh(one, uint(bits-1)), new(big.Int).Rsh(mx, 1)}
+	}
+	for _, l := range lims {
+		for d := int64(-2); d <= 2; d++ {
+			add(new(big.Int).Add(l, big.NewInt(d)))
+		}
+	}
+	return out
+}
+
+var limitCache = map[string][]string{}
+
+func limitsFor(base string) []string {
+	if v, ok := limitCache[base]; ok {
+		return v
+	}
+	var v []string
+	switch base {
+	case "int8":
+		v = limitVals(8, true)
+	case "int16":
+		v = limitVals(16, true)
+	case "int32":
+		v = limitVals(32, true)
+	case "int", "int64":
+		v = limitVals(64, true)
+	case "uint8":
+		v = limitVals(8, false)
+	case "uint16":
+		v = limitVals(16, false)
+	case "uint32":
+		v = limitVals(32, false)
+	case "uint", "uint64":
+		v = limitVals(64, false)
+	}
+	limitCache[base] = v
+	return v
+}
+
+var pow10 = func() []string {
+	var out []string
+	p := big.NewInt(1)
+	for i := 0; i <= 20; i++ {
+		for d := int64(-1); d <= 1; d++ {
+			out = append(out, new(big.Int).Add(p, big.NewInt(d)).String(), new(big.Int).Neg(new(big.Int).Add(p, big.NewInt(d))).String())
+		}
+		p = new(big.Int).Mul(p, big.NewInt(10))
+	}
+	return out
+}()
 
 func poolFor(base string) []string {
 	switch base {
@@ -57,6 +146,10 @@ type gopt struct {
 type lineGen struct {
 	weird bool // exotic option names allowed on this line
 	mal   bool // malformed items allowed on this line
+	big   bool // many options / items / files
+	long  bool // long values
+	args2 []string
+	maxFiles int
 	r     *hx.Rng
 	opts  []gopt
 	risky bool // anything outside the guaranteed-valid constructs: executed in a child process
@@ -92,6 +185,16 @@ func (g *lineGen) value(o *gopt, valid bool) string {
 				b[i] = hx.Pick(g.r, []byte("ab-=@ \xc3\xa9\xff01"))
 			}
 			v = string(b)
+		case len(limitsFor(base)) > 0 && g.r.Chance(1, 3):
+			if g.r.Chance(1, 4) {
+				v = hx.Pick(g.r, pow10)
+			} else {
+				v = hx.Pick(g.r, limitsFor(base))
+			}
+		case g.long && (base == "string" || base == "log") && g.r.Chance(1, 10):
+			v = strings.Repeat(hx.Pick(g.r, []string{"x", "ab", "é", "-", "="}), hx.Pick(g.r, []int{100, 255, 256, 4095, 4096, 30000}))
+		case g.long && base != "string" && base != "log" && base != "bool" && g.r.Chance(1, 10):
+			v = strings.Repeat("0", hx.Pick(g.r, []int{20, 64, 300})) + hx.Pick(g.r, []string{"7", "1", "127", "", "9"})
 		default:
 			v = hx.Pick(g.r, pool)
 		}
@@ -270,10 +373,19 @@ func genDecl(r *hx.Rng, g *lineGen, usedKeys map[string]bool) {
 		dup = true
 	}
 	if dup {
-		if !(g.weird && r.Chance(1, 4)) {
-			return
+		if g.weird && r.Chance(1, 4) {
+			g.risky = true
+		} else {
+			// a fresh name: o1, o10, o100 … are prefixes of each other; the one-rune names continue in the Greek block
+			o.hasName, o.name, o.single = true, fmt.Sprintf("o%d", len(g.opts)), 0
+			if r.Bool() {
+				o.single = int64(0x391 + len(g.opts))
+			}
+			keys = []string{o.name}
+			if o.single != 0 {
+				keys = append(keys, string(rune(o.single)))
+			}
 		}
-		g.risky = true
 	}
 	for _, k := range keys {
 		usedKeys[k] = true
@@ -296,13 +408,13 @@ func genDecl(r *hx.Rng, g *lineGen, usedKeys map[string]bool) {
 // splitFiles replaces runs of g.args by response files (recursively inside the files).
 func (g *lineGen) splitFiles(args []string, bound []bool, depth int) []string {
 	r := g.r
-	if depth == 0 || len(args) == 0 || len(g.files) >= 6 {
+	if depth == 0 || len(args) == 0 || len(g.files) >= g.maxFiles {
 		return args
 	}
 	out := []string{}
 	i := 0
 	for i < len(args) {
-		if r.Chance(1, 4) && len(g.files) < 6 {
+		if r.Chance(1, 4) && len(g.files) < g.maxFiles {
 			j := i + r.Intn(len(args)-i+1)
 			if !bound[i] {
 				if !(g.mal && r.Chance(1, 3)) {
@@ -314,7 +426,7 @@ func (g *lineGen) splitFiles(args []string, bound []bool, depth int) []string {
 			}
 			ok := true
 			for _, a := range args[i:j] {
-				if strings.ContainsAny(a, "\n") || strings.HasSuffix(a, "\r") {
+				if strings.ContainsAny(a, "\n") {
 					ok = false
 				}
 			}
@@ -366,35 +478,28 @@ func (g *lineGen) oracle() []string {
 		return nil
 	}
 	all := append([]string(nil), g.args...)
+	all = append(all, g.args2...)
 	for _, f := range g.files {
 		all = append(all, f.lines...)
 	}
 	for _, a := range all {
 		try(a)
 		if strings.HasPrefix(a, "-") {
-			for i := 1; i <= len(a); i++ {
+			// a value starts behind the (short) group of flags or behind the first `=`
+			for i := 1; i <= len(a) && i <= 48; i++ {
 				try(a[i:])
+			}
+			if i := strings.IndexByte(a, '='); i >= 48 {
+				try(a[i+1:])
 			}
 		}
 	}
 	return out
 }
 
-func genLine(r *hx.Rng) string {
-	g := &lineGen{r: r, weird: r.Chance(1, 12), mal: r.Chance(1, 7)}
-	incl := r.Chance(1, 4)
-	used := map[string]bool{"h": true, "help": true}
-	if incl {
-		used["v"], used["version"], used["V"], used["Version"] = true, true, true, true
-	}
-	for i, n := 0, r.Range(0, 7); i < n; i++ {
-		genDecl(r, g, used)
-	}
-	// assignments
-	nitems := r.Range(0, 8)
-	if r.Chance(1, 10) {
-		nitems = r.Range(8, 20)
-	}
+// genVector appends assignments and a tail to g.args / g.bound.
+func (g *lineGen) genVector(nitems int) {
+	r := g.r
 	for i := 0; i < nitems; i++ {
 		switch {
 		case len(g.opts) == 0:
@@ -435,6 +540,9 @@ func genLine(r *hx.Rng) string {
 		}
 	}
 	npos := r.Intn(5)
+	if g.big && r.Chance(1, 3) {
+		npos = hx.Pick(r, []int{16, 17, 64, 65, 300})
+	}
 	switch {
 	case tail <= 3: // `--` then anything
 		g.push(true, "--")
@@ -456,10 +564,96 @@ func genLine(r *hx.Rng) string {
 			g.push(i == 0, p)
 		}
 	}
+}
+
+// rawFile renders the lines of a response file as bytes in one of the layouts bufio.Scanner reads back as the same
+// lines (LF or CRLF terminators, with or without the terminator of the last line); junk=true adds layouts that
+// change the arguments (blank lines, a lone CR, CR inside).
+func (g *lineGen) rawFile(lines []string, junk bool) (string, bool) {
+	r := g.r
+	crlf := r.Bool()
+	for _, l := range lines {
+		if strings.HasSuffix(l, "\r") {
+			crlf = true // only a CRLF terminator keeps a trailing CR of the argument
+		}
+	}
+	term := "\n"
+	if crlf {
+		term = "\r\n"
+	}
+	var sb strings.Builder
+	for _, l := range lines {
+		sb.WriteString(l)
+		sb.WriteString(term)
+	}
+	out := sb.String()
+	if n := len(lines); n > 0 && r.Bool() {
+		last := lines[n-1]
+		switch {
+		case crlf:
+			out = out[:len(out)-1] // "...\r" at the end of the file: still one line, the CR is dropped
+		case last != "" && !strings.HasSuffix(last, "\r"):
+			out = out[:len(out)-1]
+		}
+	}
+	if junk {
+		switch r.Intn(5) {
+		case 0:
+			out += "\n"
+		case 1:
+			out += "\r\n\r\n"
+		case 2:
+			out = "\n" + out
+		case 3:
+			out += "\r"
+		case 4:
+			out += " \n"
+		}
+	}
+	return out, true
+}
+
+var fxEntries = []string{"msg", "err", "iferr", "ifnil", "write"}
+var fxWriters = []string{"def", "out", "fail"}
+
+func genLine(r *hx.Rng) string {
+	if r.Chance(1, 400) {
+		return "fx " + hx.Pick(r, fxEntries) + " " + hx.Pick(r, fxWriters)
+	}
+	g := &lineGen{r: r, weird: r.Chance(1, 12), mal: r.Chance(1, 7), big: r.Chance(1, 120), long: r.Chance(1, 40), maxFiles: 6}
+	incl := r.Chance(1, 4)
+	used := map[string]bool{"h": true, "help": true}
+	if incl {
+		used["v"], used["version"], used["V"], used["Version"] = true, true, true, true
+	}
+	nopts := r.Range(0, 7)
+	if g.big || r.Chance(1, 40) {
+		nopts = hx.Pick(r, []int{11, 12, 13, 16, 17, 18, 31, 32, 33, 64, 65, 130})
+	}
+	for i := 0; i < nopts; i++ {
+		genDecl(r, g, used)
+	}
+	// assignments
+	nitems := r.Range(0, 8)
+	if r.Chance(1, 10) {
+		nitems = r.Range(8, 20)
+	}
+	if g.big {
+		nitems = hx.Pick(r, []int{31, 32, 33, 64, 65, 128, 129, 257, 1000, 1100})
+		if g.long {
+			nitems = 33
+		}
+	}
+	g.genVector(nitems)
 	// response files
 	args := g.args
 	if r.Chance(1, 3) {
-		args = g.splitFiles(g.args, g.bound, 3)
+		depth, maxFiles := 3, 6
+		if g.big || r.Chance(1, 30) {
+			depth, maxFiles = 14, 40
+		}
+		g.maxFiles = maxFiles
+		args = g.splitFiles(g.args, g.bound, depth)
 	}
 	if g.mal && r.Chance(1, 4) && len(g.files) > 0 { // repeated or recursive reference
 		f := &g.files[r.Intn(len(g.files))]
@@ -476,6 +670,38 @@ func genLine(r *hx.Rng) string {
 		na := append([]string(nil), args[:p]...)
 		na = append(na, hx.Pick(r, rawArgs))
 		args = append(na, args[p:]...)
+	}
+	// a second Parse on the same CmdLine
+	twice := r.Chance(1, 12) && !g.big
+	if twice {
+		g.args, g.bound = nil, nil
+		g.genVector(r.Range(0, 5))
+		if len(g.files) > 0 && r.Chance(1, 3) {
+			// the set of loaded files starts empty again: a file of the first vector may be named again
+			g.args = append([]string{"@" + hx.Pick(r, g.files).path}, g.args...)
+			g.risky = true // its lines may end in the middle of an item
+		}
+		g.args2 = g.args
+	}
+	// response files: as a list of lines (the harness writes LF terminated lines) or as bytes
+	var fileWords []string
+	for _, f := range g.files {
+		needRaw := false
+		for _, l := range f.lines {
+			if strings.HasSuffix(l, "\r") {
+				needRaw = true
+			}
+		}
+		junk := g.mal && r.Chance(1, 3)
+		if junk {
+			g.risky = true // the extra lines are extra arguments; whether that is fatal depends on where they land
+		}
+		if needRaw || junk || r.Chance(1, 2) {
+			raw, _ := g.rawFile(f.lines, junk)
+			fileWords = append(fileWords, hx.Hex([]byte(f.path))+"="+hx.Hex([]byte(raw)))
+		} else {
+			fileWords = append(fileWords, hx.Hex([]byte(f.path))+":"+encList(f.lines))
+		}
 	}
 	// emit
 	var sb strings.Builder
@@ -499,11 +725,8 @@ func genLine(r *hx.Rng) string {
 			fmt.Fprintf(&sb, " %d:%s:%s:%s", o.single, nm, o.kind, encList(o.defs))
 		}
 	}
-	if len(g.files) > 0 {
-		sb.WriteString(" F")
-		for _, f := range g.files {
-			sb.WriteString(" " + hx.Hex([]byte(f.path)) + ":" + encList(f.lines))
-		}
+	if len(fileWords) > 0 {
+		sb.WriteString(" F " + strings.Join(fileWords, " "))
 	}
 	g.args = args
 	if orc := g.oracle(); len(orc) > 0 {
@@ -512,6 +735,12 @@ func genLine(r *hx.Rng) string {
 	sb.WriteString(" A")
 	for _, a := range args {
 		sb.WriteString(" " + hx.Hex([]byte(a)))
+	}
+	if twice {
+		sb.WriteString(" B")
+		for _, a := range g.args2 {
+			sb.WriteString(" " + hx.Hex([]byte(a)))
+		}
 	}
 	return sb.String()
 }
